@@ -679,3 +679,6 @@ def install(sess):
                 if any(mc is None or len(mc) != L for mc, L in zip(mask_chunks, lens)): return "mask blocks have the lengths of the key chunks"
                 if np.asarray(mask).dtype.kind == "b" and not _deep_same(np.concatenate([np.asarray(x) for x in mask_chunks]).astype(bool), np.asarray(mask).astype(bool)): return "concatenation of the mask blocks == the mask (consecutive partition)"
     sess.wrap("groupby_lib.groupby.core", "GroupBy._resolve_mask_argument_into_chunks", ensures=post_resolve)
+
+
+LEVEL_TEXT = "Relational property. The merge law (block-wise = single pass) and the kernel frame conditions are P/L obligations; what joins them to the public result - the split functions, the thread pool gather, the chunk-pointer scatter in _apply_gb_func_across_chunked_group_keys, the three factorisation paths and the Arrow chunk handling - is Python glue and is decided here by running the same logical call under different strategies (threads, every completion order of <=4 tasks, lowered factorisation threshold, every chunk layout) and by sidecar contracts on parallel_map and the split functions; bounded, not proved. ROUND 3: two pieces of that glue are deductive as well (P tier): the merge loop of _apply_gb_func_across_chunked_group_keys (partials of the key chunks merged through the pointer tables, chunk j with table first_chunk_in + j; the loop is extracted mechanically on every run and proved against reduce_array_pair's contract) and GroupBy.count_ikey / _find_first_chunk_in_slice - under ASSUMED contracts of their glue callees, listed in the evidence."
